@@ -14,12 +14,13 @@ import (
 )
 
 // Environment:
-//   SEQ_OUT      directory for trace.txt, histories.jsonl, stats.json, progress.txt
-//   SEQ_PROFILE  profile JSON file           (generation mode)
-//   SEQ_N        number of histories          SEQ_SEED seed     SEQ_FIRST first history number
-//   SEQ_REPLAY   JSONL file of symbolic histories to execute instead of generating
-//   SEQ_MODE     "service": execute through the grpc.Service handlers (generated histories get ids s<seed>-<k> and
-//                mode "service"; replayed histories are forced into that mode; unset: a replayed history's own "mode" decides)
+//
+//	SEQ_OUT      directory for trace.txt, histories.jsonl, stats.json, progress.txt
+//	SEQ_PROFILE  profile JSON file           (generation mode)
+//	SEQ_N        number of histories          SEQ_SEED seed     SEQ_FIRST first history number
+//	SEQ_REPLAY   JSONL file of symbolic histories to execute instead of generating
+//	SEQ_MODE     "service": execute through the grpc.Service handlers (generated histories get ids s<seed>-<k> and
+//	             mode "service"; replayed histories are forced into that mode; unset: a replayed history's own "mode" decides)
 func TestSeq(t *testing.T) {
 	slog.SetDefault(slog.New(slog.NewTextHandler(io.Discard, nil)))
 	out := os.Getenv("SEQ_OUT")
